@@ -420,18 +420,20 @@ func (d *Document) AddImageFromFile(filePath string, config *ImageConfig) (*Imag
 // generateSafeImageFileName 生成安全的图片文件名
 // 将非ASCII字符的文件名转换为安全的ASCII文件名，以确保Microsoft Word兼容性
 func generateSafeImageFileName(imageID int, originalFileName string, format ImageFormat) string {
-	// 获取文件扩展名
-	ext := filepath.Ext(originalFileName)
-	if ext == "" {
-		// 如果没有扩展名，根据格式添加
-		switch format {
-		case ImageFormatPNG:
-			ext = ".png"
-		case ImageFormatJPEG:
-			ext = ".jpeg"
-		case ImageFormatGIF:
-			ext = ".gif"
-		default:
+	// 扩展名由图片格式决定，而不是取自调用者提供的文件名：
+	// [Content_Types].xml 中的默认内容类型是按格式注册的（png/jpeg/gif），
+	// 若沿用原文件名的扩展名（如 .jpg、.PNG 或无关的扩展名），该媒体部件就没有内容类型
+	var ext string
+	switch format {
+	case ImageFormatPNG:
+		ext = ".png"
+	case ImageFormatJPEG:
+		ext = ".jpeg"
+	case ImageFormatGIF:
+		ext = ".gif"
+	default:
+		ext = filepath.Ext(originalFileName)
+		if ext == "" {
 			ext = ".png"
 		}
 	}
